@@ -816,7 +816,7 @@ func init() {
 	mc.Register(&mc.Property{
 		ID: "C10", Level: "model_checking",
 		Rule:        "explicit-state BFS over histories of two sketches with exact summary statistics (Add, AddWithCount incl. weight 0 and refused values, MergeWith, Copy, Clear, Reweight, ChangeMapping with a scale, encode/decode, DecodeAndMergeWith into non-empty); every distinct state is judged against the absorbed (value, weight) multiset: count exact, min/max exact, sum within 16 ulps of the total of |value*weight| (reference sum in 2000-bit arithmetic), emptiness, every quantile = the plain answer clamped to [min,max]; distinct_nontrivial counts distinct (contents, multisets)",
-		Assumptions: []string{"dyadic weights; reweighting factors 0.5, 2, 3; unit-change scales 0.5 and 2 (powers of two, so rescaled extremes are exact)"},
+		Assumptions: []string{"dyadic weights; reweighting factors 0.5, 2, 3; unit-change scales 2^-30, 0.5 and 2 (powers of two, so rescaled extremes are exact)"},
 		Shards: func(tier string) []mc.Shard {
 			var specs []*SketchScenarioSpec
 			for _, ms := range mapGrid(tier) {
@@ -842,7 +842,10 @@ func init() {
 					if orderFree(sp.Stores) {
 						// ChangeMapping produces non-dyadic weights, whose sums depend on the
 						// order in which a sparse store is iterated
-						sp.Ops = append(sp.Ops, skChangeMap(0, 0, MapSpec{Kind: 'C', Alpha: 0.05}, 0.5), skChangeMap(1, 0, ms, 2), skChangeMap(0, 1, ms, 1))
+						sp.Ops = append(sp.Ops, skChangeMap(0, 0, MapSpec{Kind: 'C', Alpha: 0.05}, 0.5), skChangeMap(1, 0, ms, 2), skChangeMap(0, 1, ms, 1),
+							// a scale far below 1: whatever the statistics keep beside the sum (the
+							// compensation term) must be rescaled with it, or it dominates afterwards
+							skChangeMap(0, 0, ms, 1.0/(1<<30)))
 					}
 					specs = append(specs, sp)
 				}
